@@ -3,6 +3,7 @@ package exporter
 import (
 	"encoding/json"
 	"errors"
+	"sort"
 	"strconv"
 	"strings"
 
@@ -108,7 +109,14 @@ func (s *OpenAPI3Exporter) GenerateOpenAPI3(app *syslwrapper.App) (*openapi3.T, 
 		operation.Description = v.Description
 		operation.Summary = v.Summary
 		operation.Extensions = v.Extensions
-		for paramName, paramItem := range v.Params {
+		// parameters are an ordered list in the document: emit them by name
+		paramNames := make([]string, 0, len(v.Params))
+		for paramName := range v.Params {
+			paramNames = append(paramNames, paramName)
+		}
+		sort.Strings(paramNames)
+		for _, paramName := range paramNames {
+			paramItem := v.Params[paramName]
 			var param *openapi3.Parameter
 			var payload *openapi3.SchemaRef
 			switch paramItem.In {
@@ -199,6 +207,8 @@ func (s *OpenAPI3Exporter) exportType(t *syslwrapper.Type) *openapi3.SchemaRef {
 				required = append(required, k)
 			}
 		}
+		// "required" is an ordered list in the document
+		sort.Strings(required)
 		value.Required = required
 	case "ref":
 		ref = SyslRefToJSONSchema(t.Reference)
@@ -213,8 +223,14 @@ type validInputs struct {
 
 func convertEnum(syslEnum map[int64]string) validInputs {
 	enums := validInputs{}
-	for _, str := range syslEnum {
-		enums.Data = append(enums.Data, str)
+	// enum values are an ordered list in the document: emit them by number
+	keys := make([]int64, 0, len(syslEnum))
+	for k := range syslEnum {
+		keys = append(keys, k)
+	}
+	sort.Slice(keys, func(i, j int) bool { return keys[i] < keys[j] })
+	for _, k := range keys {
+		enums.Data = append(enums.Data, syslEnum[k])
 	}
 	return enums
 }
